@@ -46,7 +46,7 @@ def Item.nals : Item → List Bytes
 def Item.heads : Item → List Bool
   | .single _ => [true]
   | .stapA _ => [true]
-  | .fuA _ cs => cs.mapIdx (fun i _ => i == 0)
+  | .fuA _ cs => match cs with | [] => [] | _ :: t => true :: List.replicate t.length false
 
 /-- an item the RFC allows (and the decoder can represent: FU-A reassembly cannot carry F = 1) -/
 def Item.wf : Item → Bool
